@@ -310,6 +310,34 @@ def setWithCap (H : Hashes) (m : SegMap V) (k : Nat) (v : V) (cap : Int) : SegMa
   else
     { segs := m.segs.setIfInBounds si s1, count := c1 }
 
+/-- the segment locks the spill loop takes, in order (`spill` with the same
+control flow, recording instead of returning the table). -/
+def spillTrace (H : Hashes) (k : Nat) (cap : Int) (si offset : Nat) : SegMap V → Nat → Nat → Nat → List Nat
+  | _, 0, _, _ => []
+  | m, f + 1, i, deficit =>
+    if i < m.segs.size ∧ deficit > 0 then
+      if m.count ≤ cap then [] else
+      let ni := (si + i) % m.segs.size
+      let r := (m.segAt ni).evictKeysAt H.idx offset deficit k
+      ni :: spillTrace H k cap si offset
+        { segs := m.segs.setIfInBounds ni r.1, count := m.count - r.2 } f (i + 1) (deficit - r.2)
+    else []
+
+/-- every lock `SetWithCap(key, value, capacity)` takes, in order: the key's
+own segment, then (only if the own segment could not pay the toll) the
+following segments one at a time.  There is nothing else to wait for. -/
+def lockTrace (H : Hashes) (m : SegMap V) (k : Nat) (v : V) (cap : Int) : List Nat :=
+  let si := segOf H m k
+  let offset := H.off k
+  let s := m.segAt si
+  let s1 := s.put H.idx k v
+  let c1 := if s1.len > s.len then m.count + 1 else m.count
+  if c1 > cap then
+    let r := s1.evictKeysAt H.idx offset 2 k
+    let m1 : SegMap V := { segs := m.segs.setIfInBounds si r.1, count := c1 - r.2 }
+    if 2 - r.2 = 0 then [si] else si :: spillTrace H k cap si offset m1 m1.segs.size 1 (2 - r.2)
+  else [si]
+
 /-- all entries (ForEach order: segment by segment). -/
 def toList (m : SegMap V) : List (Nat × V) := m.segs.toList.flatMap UMap.toList
 
